@@ -6,7 +6,8 @@ package c12
 // kept, and must still be the lossless encoding of ITS value when all steps are done (and unchanged since it was returned);
 // documents are decoded into fresh destinations, into destinations an earlier step of the sequence decoded into, and into
 // destinations that hold a generated value, and every result may contain only what its document contains (plus, for what the
-// document does not mention, what the destination held - the documented behaviour of encoding/json). A case of kind "conc"
+// document does not mention, what the destination held - the documented behaviour of encoding/json). A step may also be the
+// caller changing in place what an earlier step decoded or encoded (mut_test.go). A case of kind "conc"
 // (TestConcurrent, run from a -race binary) gives 2-6 goroutines a step list each, releases them together and judges every
 // step with the same per-value oracle after all goroutines have ended.
 
@@ -25,11 +26,15 @@ import (
 
 // Step is one codec call of a sequence.
 type Step struct {
-	Op   string `json:"op"`             // enc: the exported MarshalJSON method | encjson: json.Marshal | dec: json.Unmarshal (text types: UnmarshalText)
+	Op   string `json:"op"`             // enc: the exported MarshalJSON method | encjson: json.Marshal | dec: json.Unmarshal (text types: UnmarshalText, form types: the form decoder) | mut: the caller changes a value in place
 	Type string `json:"type,omitempty"` // claims type (enc, encjson); decoder type (dec into a fresh destination)
 	Val  *Obj   `json:"val,omitempty"`  // enc, encjson
 	Doc  string `json:"doc,omitempty"`  // dec
 	Dest int    `json:"dest,omitempty"` // dec: 0 = a fresh destination; n = the re-used destination Dests[n-1] (one instance per goroutine)
+	// mut: the value step Ref (1-based, same goroutine) decoded into / built and encoded is changed in place by its owner, see mutOps
+	Ref int    `json:"ref,omitempty"`
+	Mut string `json:"mut,omitempty"`
+	Sel int    `json:"sel,omitempty"`
 }
 
 // Dest is a decode destination that several steps of one goroutine decode into.
@@ -56,6 +61,10 @@ type stepRun struct {
 	// dec
 	d   *dest
 	dec *decOut
+	// mut: target = d (a decode destination) or prep (a value that was encoded)
+	m         *mutator
+	mutAfter  *snap // claims destination: content after the change
+	mutAfterS any   // stand-alone variable: value after the change
 }
 
 func (r *stepRun) exec() {
@@ -68,6 +77,20 @@ func (r *stepRun) exec() {
 		r.atReturn = append([]byte(nil), r.out...)
 	case "dec":
 		r.dec = doDecode(r.d.typ, []byte(r.st.Doc), r.d)
+	case "mut":
+		// the owner of the value changes it (its goroutine; nobody else holds the value)
+		r.pan, r.stack = guarded(func() {
+			switch {
+			case r.d != nil && r.d.sc != nil:
+				r.m = r.d.sc.mutate(r.st.Mut, r.st.Sel)
+				r.mutAfterS = r.d.sc.value()
+			case r.d != nil:
+				r.m = mutateBinding(r.d.b, r.d.keys, r.st.Mut, r.st.Sel)
+				r.mutAfter = snapshot(r.d.b, r.d.keys)
+			default:
+				r.m = mutateBinding(r.prep.b, sortedKeys(r.prep.custom(r.prep.val)), r.st.Mut, r.st.Sel)
+			}
+		})
 	}
 }
 
@@ -84,7 +107,7 @@ func runSteps(c Case, workers [][]Step, concurrent bool, res *vkit.Result) {
 
 	// phase 1 (this goroutine): build the values that will be encoded and the destinations
 	runs := make([][]*stepRun, len(workers))
-	total, kept, reusedSteps, preSteps := 0, 0, 0, 0
+	total, kept, reusedSteps, preSteps, muts := 0, 0, 0, 0, 0
 	var classes []string
 	for w, steps := range workers {
 		if len(steps) == 0 || len(steps) > maxSteps {
@@ -153,6 +176,26 @@ func runSteps(c Case, workers [][]Step, concurrent bool, res *vkit.Result) {
 					classes = append(classes, "dec:"+d.typ+":reused")
 				}
 				r.d = d
+			case "mut":
+				if st.Ref < 1 || st.Ref > i || !validMut(st.Mut) || st.Sel < 0 {
+					malformed()
+					return
+				}
+				ref := runs[w][st.Ref-1]
+				r.d, r.prep = ref.d, ref.prep
+				if r.d == nil && r.prep == nil {
+					malformed()
+					return
+				}
+				target := "encoded:"
+				if r.prep != nil {
+					target += r.prep.typ
+				}
+				if r.d != nil {
+					target = "decoded:" + r.d.typ
+				}
+				muts++
+				classes = append(classes, "mut:"+st.Mut+":"+target)
 			default:
 				malformed()
 				return
@@ -187,7 +230,8 @@ func runSteps(c Case, workers [][]Step, concurrent bool, res *vkit.Result) {
 
 	// phase 3: judge every step with the per-value oracle
 	var infos []any
-	greySteps := 0
+	greySteps, effective := 0, 0
+	againAfterChange := decodedAgainAfterChange(runs, concurrent)
 	lastUse := map[*dest]*stepRun{}
 	for w := range runs {
 		for _, r := range runs[w] {
@@ -234,14 +278,22 @@ func runSteps(c Case, workers [][]Step, concurrent bool, res *vkit.Result) {
 				infos = append(infos, map[string]any{"step": what, "outcome": info["outcome"], "forms": info["forms"]})
 				// a decoded value is the caller's: what it holds after the last step is what it held when its decode returned
 				if lastUse[r.d] == r && r.dec.pan == nil {
-					if r.d.sc != nil {
-						if now := r.d.sc.value(); !jsonEq(now, r.dec.afterS) {
-							res.Fail("C12:decoded-value-changed-by-later-steps", "the decoded %s was %s when the decode returned and is %s after the later steps", r.d.typ, canonJSON(r.dec.afterS), canonJSON(now))
-						}
-					} else if now := snapshot(r.d.b, nil); !snapEq(now, r.dec.after) {
-						res.Fail("C12:decoded-value-changed-by-later-steps", "the decoded %s held %s when the decode returned and holds %s after the later steps: it shares memory with values decoded later",
-							r.d.typ, clip([]byte(canonJSON(r.dec.after.plain()))), clip([]byte(canonJSON(now.plain()))))
-					}
+					stillHolds(res, r.d, r.dec.after, r.dec.afterS, "its decode returned")
+				}
+			case "mut":
+				what += " (the caller changes the " + r.d.describe(r.prep) + " of step " + fmt.Sprint(r.st.Ref) + " in place: " + describeMut(r.st.Mut, r.st.Sel) + ")"
+				if r.pan != nil {
+					// nothing of the library runs in this step
+					res.Fail("C12:harness-defect-in-place-change-panicked", "changing the value in place panicked (a defect of the check, not of the library): %v\n%s", r.pan, r.stack)
+					break
+				}
+				if r.m.changed > 0 {
+					effective++
+				}
+				infos = append(infos, map[string]any{"step": what, "containers": r.m.seen, "changed": r.m.changed})
+				// ... and what its owner made of it is what it holds when the sequence is over
+				if r.d != nil && lastUse[r.d] == r {
+					stillHolds(res, r.d, r.mutAfter, r.mutAfterS, "its owner changed it")
 				}
 			}
 			for k := before; k < len(res.Viol); k++ {
@@ -264,13 +316,100 @@ func runSteps(c Case, workers [][]Step, concurrent bool, res *vkit.Result) {
 	if greySteps > 0 {
 		res.Label(kind + ":has-grey-step")
 	}
-	res.Grey = greySteps == total
+	if muts > 0 {
+		res.Label(kind + ":value-changed-in-place-between-calls")
+		if effective > 0 {
+			res.Label(kind + ":in-place-change-effective")
+		} else {
+			res.Label(kind + ":in-place-change-nothing-to-change")
+		}
+		if againAfterChange > 0 && effective > 0 {
+			res.Label(kind + ":document-decoded-again-while-or-after-its-value-was-changed")
+		}
+	}
+	res.Grey = greySteps == total-muts
 	if concurrent {
 		res.NonTrivial = len(workers) >= 2
 	} else {
-		res.NonTrivial = kept >= 2 || reusedSteps+preSteps > 0
+		res.NonTrivial = kept >= 2 || reusedSteps+preSteps > 0 || effective > 0
 	}
 	res.Key = kind + "|" + strings.Join(classes, ",")
+}
+
+// stillHolds: the destination holds, when the sequence is over, what it held at `since` (after / afterS).
+func stillHolds(res *vkit.Result, d *dest, after *snap, afterS any, since string) {
+	if d.sc != nil {
+		if now := d.sc.value(); !jsonEq(now, afterS) {
+			res.Fail("C12:decoded-value-changed-by-later-steps", "the decoded %s was %s when %s and is %s after the later steps: it shares memory with other values", d.typ, canonJSON(afterS), since, canonJSON(now))
+		}
+		return
+	}
+	now := snapshot(d.b, d.keys)
+	if !snapEq(now, after) || (after.look != nil && !jsonEq(lookOf(now, after), after.look)) {
+		res.Fail("C12:decoded-value-changed-by-later-steps", "the decoded %s held %s when %s and holds %s after the later steps: it shares memory with other values",
+			d.typ, clip([]byte(canonJSON(after.plain()))), since, clip([]byte(canonJSON(now.plain()))))
+	}
+}
+
+// lookOf: the custom claims of now (read one by one) under the names that were read for then.
+func lookOf(now, then *snap) map[string]any {
+	out := map[string]any{}
+	for k := range then.look {
+		if v, ok := now.look[k]; ok {
+			out[k] = v
+		}
+	}
+	return out
+}
+
+func (d *dest) describe(p *encPrep) string {
+	if d != nil {
+		return "decoded " + d.typ
+	}
+	return "encoded " + p.typ
+}
+
+// decodedAgainAfterChange: decodes of a document another step decoded before and whose decoded value was changed in place
+// (sequential: the change precedes the decode; concurrent: anywhere in another goroutine, or before in the same one).
+func decodedAgainAfterChange(runs [][]*stepRun, concurrent bool) int {
+	type at struct{ w, i int }
+	changed := map[string][]at{} // bare text of the document -> where a value decoded from it is changed
+	bare := func(r *stepRun) string {
+		if isTextType(r.d.typ) {
+			return r.st.Doc
+		}
+		var s string
+		if json.Unmarshal([]byte(r.st.Doc), &s) == nil {
+			return s
+		}
+		return r.st.Doc
+	}
+	for w := range runs {
+		last := map[*dest]*stepRun{}
+		for _, r := range runs[w] {
+			switch {
+			case r.st.Op == "dec":
+				last[r.d] = r
+			case r.st.Op == "mut" && r.d != nil && last[r.d] != nil:
+				changed[bare(last[r.d])] = append(changed[bare(last[r.d])], at{w, r.i})
+			}
+		}
+	}
+	n := 0
+	for w := range runs {
+		for _, r := range runs[w] {
+			if r.st.Op != "dec" {
+				continue
+			}
+			for _, c := range changed[bare(r)] {
+				if (c.w == w && c.i < r.i) || (concurrent && c.w != w) {
+					n++
+					break
+				}
+			}
+		}
+	}
+	return n
 }
 
 // ---- generation --------------------------------------------------------------------------------------
@@ -315,21 +454,41 @@ func regNames(o *Obj) []string {
 
 // genSteps draws n steps for one goroutine; dests is the case's destination list (appended to), a goroutine only uses
 // the destinations it created itself.
-func genSteps(t *rapid.T, n int, dests *[]Dest) []Step {
-	mode := rapid.SampledFrom([]string{"mixed", "mixed", "encode", "decode"}).Draw(t, "seqmode")
+func genSteps(t *rapid.T, n int, dests *[]Dest, pool *docPool) []Step {
+	mode := rapid.SampledFrom([]string{"mixed", "mixed", "encode", "decode", "alias", "alias"}).Draw(t, "seqmode")
+	if mode == "alias" {
+		return genAliasSteps(t, n, dests, pool)
+	}
 	var mine []int               // indices (1-based) of the destinations of this goroutine
+	var refs []int               // steps (1-based) whose value can be changed in place by a later step
 	names := map[int][]string{} // member names the destination has met
 	steps := make([]Step, 0, n)
+	// genDoc: a document for the type: now and then one the case decodes elsewhere, too (or one sharing members / tokens with it)
+	genDoc := func(typ string, base []string) string {
+		if rapid.IntRange(0, 3).Draw(t, "docagain") == 0 {
+			if doc, ok := pool.again(t, typ); ok {
+				return doc
+			}
+		}
+		doc := genDocFor(t, typ, base)
+		pool.add(typ, doc)
+		return doc
+	}
 	for i := 0; i < n; i++ {
 		op := mode
 		if mode == "mixed" {
 			op = rapid.SampledFrom([]string{"encode", "encode", "decode"}).Draw(t, "op")
+		}
+		if len(refs) > 0 && rapid.IntRange(0, 5).Draw(t, "mut") == 0 {
+			steps = append(steps, genMut(t, refs))
+			continue
 		}
 		if op == "encode" {
 			st := Step{Op: rapid.SampledFrom([]string{"enc", "enc", "enc", "encjson"}).Draw(t, "encapi")}
 			st.Type = rapid.SampledFrom(claimTypes).Draw(t, "type")
 			st.Val = genObj(t, st.Type, 0)
 			steps = append(steps, st)
+			refs = append(refs, len(steps))
 			continue
 		}
 		st := Step{Op: "dec"}
@@ -340,7 +499,7 @@ func genSteps(t *rapid.T, n int, dests *[]Dest) []Step {
 			} else {
 				st.Type = rapid.SampledFrom(claimTypes).Draw(t, "type")
 			}
-			st.Doc = genDocFor(t, st.Type, nil)
+			st.Doc = genDoc(st.Type, nil)
 		case where <= 2 || len(mine) == 0:
 			d := Dest{}
 			if rapid.IntRange(0, 3).Draw(t, "scalar") == 0 {
@@ -355,15 +514,16 @@ func genSteps(t *rapid.T, n int, dests *[]Dest) []Step {
 			st.Dest = len(*dests)
 			mine = append(mine, st.Dest)
 			names[st.Dest] = regNames(d.Pre)
-			st.Doc = genDocFor(t, d.Type, pickNames(t, names[st.Dest]))
+			st.Doc = genDoc(d.Type, pickNames(t, names[st.Dest]))
 			names[st.Dest] = append(names[st.Dest], memberNames(st.Doc)...)
 		default:
 			st.Dest = rapid.SampledFrom(mine).Draw(t, "reuse")
 			typ := (*dests)[st.Dest-1].Type
-			st.Doc = genDocFor(t, typ, pickNames(t, names[st.Dest]))
+			st.Doc = genDoc(typ, pickNames(t, names[st.Dest]))
 			names[st.Dest] = append(names[st.Dest], memberNames(st.Doc)...)
 		}
 		steps = append(steps, st)
+		refs = append(refs, len(steps))
 	}
 	return steps
 }
@@ -383,15 +543,16 @@ func pickNames(t *rapid.T, names []string) []string {
 
 func genSeqCase(t *rapid.T) Case {
 	c := Case{Kind: "seq"}
-	c.Seq = genSteps(t, rapid.IntRange(2, 6).Draw(t, "nsteps"), &c.Dests)
+	c.Seq = genSteps(t, rapid.IntRange(2, 6).Draw(t, "nsteps"), &c.Dests, &docPool{})
 	return c
 }
 
 func genConcCase(t *rapid.T) Case {
 	c := Case{Kind: "conc"}
 	k := rapid.IntRange(2, 6).Draw(t, "goroutines")
+	pool := &docPool{} // of the case: the goroutines decode (and change what they decoded from) the same documents
 	for g := 0; g < k; g++ {
-		c.Conc = append(c.Conc, genSteps(t, rapid.IntRange(1, 4).Draw(t, "nsteps"), &c.Dests))
+		c.Conc = append(c.Conc, genSteps(t, rapid.IntRange(1, 4).Draw(t, "nsteps"), &c.Dests, pool))
 	}
 	return c
 }
@@ -401,7 +562,8 @@ func genConcCase(t *rapid.T) Case {
 var propConc = vkit.Prop[Case]{
 	ID: "C12",
 	Rule: "concurrent sub-check (run from a -race binary): 2-6 goroutines, each with 1-4 generated steps (encode a generated value of one of the 8 claims types through its exported MarshalJSON method or json.Marshal; " +
-		"decode a grammar-generated document into a fresh destination, a destination of an earlier step of the same goroutine, or a destination holding a generated value), released together by a barrier; " +
+		"decode a grammar-generated document into a fresh destination, a destination of an earlier step of the same goroutine, or a destination holding a generated value; change in place what an earlier step of the same goroutine decoded or encoded - the goroutines of a case draw their documents from one pool, " +
+		"so one goroutine decodes the document whose decoded value another one is changing), released together by a barrier; " +
 		"the goroutines only call the library and copy what it returned, all values and destinations are built before and every step is judged after all goroutines have ended, by the oracle of the sequential cases " +
 		"(kept encoded document = what the statement prescribes for ITS value, unchanged since it was returned, decodes back; decoded result = only what its document contains); a data race report kills the process and the " +
 		"driver reports the case on disk; non-trivial = at least two goroutines; distinct = the list of (operation, type, destination kind) of all goroutines",
